@@ -122,6 +122,10 @@ def initial_events(ctx):
         for p in CTOR_PLACES:
             for f in ('NED', 'ENU'):
                 out.append(['ctor', d] + (list(p) if p else [None, None, None]) + [f])
+    # other accepted spellings of the frame name (the constructor validates case-insensitively): same answers as upper case
+    d0 = (CTOR_DATES_T if ctx.thorough else CTOR_DATES)[3]
+    for p, f in zip(CTOR_PLACES[:3], ('enu', 'ned', 'Enu') if ctx.thorough else ('enu',)):
+        out.append(['ctor', d0] + (list(p) if p else [None, None, None]) + [f])
     return out
 
 
